@@ -36,6 +36,12 @@ def build_template(w: TableWorld) -> None:
     t.append_records([row(1), row(2)])
 
 
+def build_empty_template(w: TableWorld) -> None:
+    from datashard import create_table
+
+    create_table(w.location, schema())
+
+
 def _read(t: Any, api: str) -> Any:
     if api == "scan":
         return reader.canon_rows(t.scan())
@@ -89,7 +95,8 @@ class _PointerFault:
 
 class C02World(TableWorld):
     def __init__(self, backend: str, api: str, writers: Tuple[str, ...], n_readers: int, rep: Report, cfg: Dict[str, Any]):
-        super().__init__(backend, "separate", n_readers + len(writers), build_template, name="c02")
+        super().__init__(backend, "separate", n_readers + len(writers),
+                         build_empty_template if cfg.get("empty") else build_template, name="c02")
         self.api, self.writers, self.n_readers = api, writers, n_readers
         self.rep, self.cfg = rep, cfg
         self.prelude = cfg.get("reader_prelude")
@@ -287,11 +294,11 @@ def run_config(cfg: Dict[str, Any]) -> Dict[str, Any]:
 def configs(tier: str, seed: int) -> List[Dict[str, Any]]:
     out = []
 
-    def add(backend, api, writers, readers=1, bound=None, sample=False, prelude=None):
+    def add(backend, api, writers, readers=1, bound=None, sample=False, prelude=None, empty=False):
         cid = f"{backend}/{api}/{'+'.join(writers)}/r{readers}" + (f"/b{bound}" if bound is not None else "") \
-            + (f"/same-handle-{prelude}" if prelude else "")
+            + (f"/same-handle-{prelude}" if prelude else "") + ("/empty-table" if empty else "")
         out.append({"id": cid, "backend": backend, "api": api, "writers": list(writers), "readers": readers,
-                    "bound": bound, "tier": tier, "seed": seed, "sample": sample, "reader_prelude": prelude})
+                    "bound": bound, "tier": tier, "seed": seed, "sample": sample, "reader_prelude": prelude, "empty": empty})
 
     k = seed
     for api in APIS:
@@ -302,6 +309,9 @@ def configs(tier: str, seed: int) -> List[Dict[str, Any]]:
             else:
                 add("s3", api, (wop,), sample=(api == "scan" and wop == "append"))
                 add("local", api, (wop,))
+    # the very first commit of a table lands while a reader is in flight
+    for k3, api in enumerate(APIS if tier != "quick" else ("scan", "row_count", "iter_records")):
+        add(("s3", "local")[k3 % 2], api, ("append",), empty=True)
     # a handle whose own commit failed at the pointer write, then reads while another handle commits
     for k2, api in enumerate(APIS if tier != "quick" else ("scan", "row_count", "scan_batches")):
         add(("local", "s3")[k2 % 2], api, ("append",), prelude="failed_commit", bound=None if tier != "quick" else 2)
